@@ -18,7 +18,7 @@ META = {
                    "ends different is a candidate leak. A candidate is reported only if the API replay - optimize() "
                    "twice on one instance versus once on a fresh one, identically seeded - returns different results; "
                    "otherwise it is listed as an unobservable survivor.",
-    "bounds": {"quick": "(a) <=2 earlier runs, max_cycles<=2 per run; (b) numeric private fields, one task, the "
+    "bounds": {"quick": "(a) <=2 earlier runs (one of them possibly aborted by an exception in cycle 1..3), max_cycles<=2 per run; (b) numeric private fields, one task, the "
                         "test-suite configuration", "thorough": "(a) <=2 earlier runs, max_cycles<=3"},
     "outside": "leaks through container-valued fields or state that only differs after particular trajectories (H3); "
                "(b) is refutation-only: absence of a candidate proves nothing about the update rule",
@@ -27,16 +27,27 @@ META = {
 }
 
 
-def one_run(opt, tag, mc, use_fe, patience):
+class _Abort(Exception):
+    pass
+
+
+def one_run(opt, tag, mc, use_fe, patience, abort_at=None):
     fe = sym.shared(f"{tag}.fe", lambda: sym.real(f"{tag}.fitness_error")) if use_fe else None
     md = sym.shared(f"{tag}.md", lambda: sym.real(f"{tag}.min_delta")) if patience else None
     es = M.EarlyStopping(patience=patience, min_delta=md) if patience else None
     opt._config = M.BaseOptimizationConfig(population_size=1, fitness_error=fe, max_cycles=mc, early_stopping=es)
     fits = [sym.shared(f"{tag}.f{c}", lambda c=c: sym.real(f"{tag}.f{c}")) for c in range(mc + 1)]
     opt.init_fn = lambda o: [agent((tag, 0), 0.0, fits[0])]
-    opt.step_fn = lambda o, k: setattr(o, "_population", [agent((tag, min(k, mc)), 0.0, fits[min(k, mc)])])
+    def step(o, k):
+        if abort_at is not None and k == abort_at:
+            raise _Abort()          # an objective running out of budget, a failing worker, an error in an update rule
+        o._population = [agent((tag, min(k, mc)), 0.0, fits[min(k, mc)])]
+    opt.step_fn = step
     opt.steps = 0
-    res = opt.optimize(make_task([cont()], lambda x, i: 0.0))
+    try:
+        res = opt.optimize(make_task([cont()], lambda x, i: 0.0))
+    except _Abort:
+        return opt.steps, None
     return opt.steps, res
 
 
@@ -45,8 +56,8 @@ def ob_history(shapes):
     def f():
         with env(allow_seed=True):
             used = Scripted(None)
-            for i, (mc, use_fe, pat) in enumerate(shapes[:-1]):
-                one_run(used, f"r{i}", mc, use_fe, pat)
+            for i, sh in enumerate(shapes[:-1]):
+                one_run(used, f"r{i}", *sh)          # (a 4th entry aborts that run by an exception in the given cycle)
             mc, use_fe, pat = shapes[-1]
             s_used, r_used = one_run(used, "last", mc, use_fe, pat)
             s_fresh, r_fresh = one_run(Scripted(None), "last", mc, use_fe, pat)
@@ -254,6 +265,10 @@ def obligations(tier):
             obs.append(Ob(f"history[{first}->{last}]".replace(" ", ""), ob_history([first, last]), 600))
     for a, b, c in (((2, True, None), (1, False, None), (2, True, None)), ((1, True, 1), (2, True, None), (2, False, 1))):
         obs.append(Ob(f"history[{a}->{b}->{c}]".replace(" ", ""), ob_history([a, b, c]), 900))
+    # the history may contain a run that was aborted by an exception (in its 1st .. 3rd cycle)
+    for ab in (1, 2, 3):
+        for last in ((2, True, None), (2, False, 1)) + (((3, True, 1),) if th else ()):
+            obs.append(Ob(f"history[aborted(cycle={ab})->{last}]".replace(" ", ""), ob_history([(3, True, None, ab), last]), 600))
     specs = [(("C",), "max", 2), (("C",), "min", 1), (("D3",), "min", 1), (("CM2",), "max", 1), (("C", "D3"), "min", 2)]
     for a in specs:
         for b in specs:
